@@ -1012,15 +1012,21 @@ impl Eq for RelayConnectionState {}
 /// Each [`ActiveRelayActor`] updates only the status (via [`Self::set_status`]),
 /// which guards against stale writes: if another relay has become home since this actor
 /// was designated, the write is silently dropped.
+///
+/// All writers hold `write_lock`, so the URL check in [`Self::set_status`] and the write
+/// it guards are atomic with respect to a concurrent [`Self::set`] or [`Self::clear`].
 #[derive(Debug, Clone)]
 pub(crate) struct HomeRelayWatch {
     inner: Watchable<Option<RelayStatus>>,
+    /// Serialises writers. The actors run as separate tasks, possibly on different threads.
+    write_lock: Arc<std::sync::Mutex<()>>,
 }
 
 impl Default for HomeRelayWatch {
     fn default() -> Self {
         Self {
             inner: Watchable::new(None),
+            write_lock: Default::default(),
         }
     }
 }
@@ -1028,11 +1034,13 @@ impl Default for HomeRelayWatch {
 impl HomeRelayWatch {
     /// Set the home relay URL and status. Used by [`RelayActor`] on relay changes.
     fn set(&self, url: RelayUrl, state: RelayConnectionState) {
+        let _guard = self.write_lock.lock().expect("poisoned");
         let _ = self.inner.set(Some(RelayStatus::new(url, state)));
     }
 
     /// Clear the home relay (no preferred relay). Used by [`RelayActor`].
     fn clear(&self) {
+        let _guard = self.write_lock.lock().expect("poisoned");
         let _ = self.inner.set(None);
     }
 
@@ -1043,6 +1051,7 @@ impl HomeRelayWatch {
     /// updates the URL in the watchable *before* sending `SetHomeRelay(false)`, so by
     /// the time the old actor tries to write, the URL no longer matches.
     fn set_status(&self, url: &RelayUrl, state: RelayConnectionState) {
+        let _guard = self.write_lock.lock().expect("poisoned");
         if self.inner.get().as_ref().map(RelayStatus::url) == Some(url) {
             #[cfg(iroh_verif)]
             iroh_base::verif::pause("home_relay_watch.set_status.between_read_and_write");
